@@ -134,7 +134,9 @@ static void do_rnd(vf_case *c) {
 	check_valid("ep_map_rnd", p, &G);
 	if (!ref_map_one(&P0, c->v[1]) || !ref_map_one(&P1, c->v[2])) { vf_fail(NULL, "reference: g(x) is not a square for any candidate (constants do not define a map)"); goto done; }
 	rpt_add(&RC, &S, &P0, &P1); ref_cof(&E, &S); transitions++;
-	if (!rpt_eq(&G, &E)) { char b[900]; gmp_snprintf(b, sizeof b, "ep_map_rnd[%s]: differs from the reference construction: expected %s(%Zx,%Zx) got %s(%Zx,%Zx)", map_kind == 1 ? "sswu" : "svdw", E.inf ? "INF" : "", E.x, E.y, G.inf ? "INF" : "", G.x, G.y); vf_fail(NULL, "%s", b); }
+	/* L27: the library adds the two images with the complete projective formulas, which return the identity when P0 - P1 has order two (even-order curves) */
+	const char *kf27 = NULL; { rpt D; rpt_init(&D); rpt_neg(&RC, &D, &P1); rpt_add(&RC, &D, &P0, &D); if (!D.inf && !mpz_sgn(D.y) && !P0.inf && !P1.inf) kf27 = "L27-projc-add-difference-of-order-two"; rpt_clear(&D); }
+	if (!rpt_eq(&G, &E)) { char b[900]; gmp_snprintf(b, sizeof b, "ep_map_rnd[%s]: differs from the reference construction: expected %s(%Zx,%Zx) got %s(%Zx,%Zx)", map_kind == 1 ? "sswu" : "svdw", E.inf ? "INF" : "", E.x, E.y, G.inf ? "INF" : "", G.x, G.y); vf_fail(kf27, "%s", b); }
 	/* too-short input must be refused */
 	if (need) { VF_TRY(th, ep_map_rnd(q, buf, need - 1)); transitions++; if (!th) vf_fail(NULL, "ep_map_rnd accepts %zu bytes although %zu are needed: short buffer not refused", need - 1, need); }
 done:
@@ -149,6 +151,7 @@ static void do_msg(vf_case *c) {
 	static const char *EN[] = {"ep_map_sswum", "ep_map_basic", "ep_map_swift", "ep_map"};
 	#define CALL(P) do { if (ent == 0) VF_TRY(th, ep_map_sswum(P, msg, len)); else if (ent == 1) VF_TRY(th, ep_map_basic(P, msg, len)); else if (ent == 2) VF_TRY(th, ep_map_swift(P, msg, len)); else VF_TRY(th, ep_map(P, msg, len)); } while (0)
 	CALL(p);
+	if (th && ent == 2 && tiny) { vf_stat_add("x.swift_raised_on_tiny_curve", 1); goto done; } /* SwiftEC has no reference here; its exceptional inputs (probability ~1/p) make it raise on 10-bit fields */
 	if (th) { /* SwiftEC is refused (error reported) for supersingular curves, p = 2 mod 3 and curves with a b != 0 */ if (!(ent == 2 && (ep_curve_is_super() || core_get()->mod18 % 3 == 2 || (ep_curve_opt_a() != RLC_ZERO && ep_curve_opt_b() != RLC_ZERO)))) vf_fail(NULL, "%s raised %d (len %zu)", EN[ent], th, len); goto done; }
 	check_valid(EN[ent], p, &G);
 	if (G.inf && !tiny) vf_fail(NULL, "%s: returned the identity", EN[ent]); /* on a ~1000-point curve the two images cancel with probability 2^-10: legitimate there, checked against the reference below */
@@ -158,8 +161,8 @@ static void do_msg(vf_case *c) {
 	/* reference construction */
 	if (ent == 0 || ent == 3) { uint8_t *u = malloc(2 * ELM); const char *tag = RLC_DSTAG; mpz_t u0, u1; mpz_inits(u0, u1, NULL);
 		if (!ref_xmd("SHA256", 32, 64, u, 2 * ELM, msg, len, (const uint8_t *)tag, sizeof(RLC_DSTAG))) vf_fail(NULL, "reference: XMD parameters out of range");
-		else { os2ip(u0, u, ELM); os2ip(u1, u + ELM, ELM); if (!ref_map_one(&P0, u0) || !ref_map_one(&P1, u1)) vf_fail(NULL, "reference: no square candidate"); else { rpt_add(&RC, &S, &P0, &P1); ref_cof(&E, &S); transitions++;
-			if (!rpt_eq(&G, &E)) { char b[900]; gmp_snprintf(b, sizeof b, "%s[%s]: differs from the reference construction (XMD-SHA-256, tag \"%s\" incl. its terminator): expected (%Zx,%Zx) got (%Zx,%Zx)", EN[ent], map_kind == 1 ? "sswu" : "svdw", tag, E.x, E.y, G.x, G.y); vf_fail(NULL, "%s", b); } } }
+		else { os2ip(u0, u, ELM); os2ip(u1, u + ELM, ELM); if (!ref_map_one(&P0, u0) || !ref_map_one(&P1, u1)) vf_fail(NULL, "reference: no square candidate"); else { rpt_add(&RC, &S, &P0, &P1); ref_cof(&E, &S); transitions++; const char *kf27 = NULL; { rpt D; rpt_init(&D); rpt_neg(&RC, &D, &P1); rpt_add(&RC, &D, &P0, &D); if (!D.inf && !mpz_sgn(D.y)) kf27 = "L27-projc-add-difference-of-order-two"; rpt_clear(&D); }
+			if (!rpt_eq(&G, &E)) { char b[900]; gmp_snprintf(b, sizeof b, "%s[%s]: differs from the reference construction (XMD-SHA-256, tag \"%s\" incl. its terminator): expected (%Zx,%Zx) got (%Zx,%Zx)", EN[ent], map_kind == 1 ? "sswu" : "svdw", tag, E.x, E.y, G.x, G.y); vf_fail(kf27, "%s", b); } } }
 		free(u); mpz_clears(u0, u1, NULL); }
 	if (ent == 1) { /* try-and-increment: x = OS2IP(XMD(msg, elm bytes, tag without terminator)) mod p, incremented until g(x) is a non-zero square; either root; then cofactor */
 		uint8_t *u = malloc(ELM); const char *tag = RLC_DSTAG; mpz_t x, gx; mpz_inits(x, gx, NULL);
